@@ -86,7 +86,11 @@ func applyChange(set []string, ch string) (out []string, ok bool) {
 }
 
 // Histories enumerates all applicable change sequences of length <= n, shortest first.
-func Histories(n int) [][]string {
+func Histories(n int) [][]string { return HistoriesFrom(n, nil) }
+
+// HistoriesFrom enumerates the change sequences applicable to an identity whose first version
+// declares the keys of init.
+func HistoriesFrom(n int, init []string) [][]string {
 	var out [][]string
 	var rec func(prefix []string, set []string)
 	rec = func(prefix []string, set []string) {
@@ -100,7 +104,7 @@ func Histories(n int) [][]string {
 			}
 		}
 	}
-	rec(nil, nil)
+	rec(nil, init)
 	sort.SliceStable(out, func(i, j int) bool { return len(out[i]) < len(out[j]) })
 	return out
 }
@@ -207,7 +211,13 @@ func resolvers(repo repository.ClockedRepo) entity.Resolvers {
 //
 // late: the author's identity is created after bugs exist (a second user joining), so that its
 // first version already records the bug clocks; otherwise it is created in the empty repository.
-func Build(dir string, keys Keys, history []string, pos Position, signer string, kind string, late bool) (*Built, error) {
+//
+// init: key the author's first identity version already declares ("" = none); the first two
+// commits of the bug are then signed with it.
+//
+// kind "tree:<order>": the tested commit (with an operation) points to a tree holding the usual
+// entries stored in another order (raw tree object), and is signed after the tree was built.
+func Build(dir string, keys Keys, history []string, pos Position, signer string, kind string, late bool, init string) (*Built, error) {
 	vctl.SetActor("writer")
 	repo, err := repository.InitGoGitRepo(filepath.Join(dir, "A"), world.Namespace)
 	if err != nil {
@@ -250,7 +260,13 @@ func Build(dir string, keys Keys, history []string, pos Position, signer string,
 		return nil, err
 	}
 	recorded = append(recorded, t0)
-	alice, err := identity.NewIdentity(repo, "Alice", "alice@example.org")
+	var initKeys []*identity.Key
+	var initKey *identity.Key
+	if init != "" {
+		initKey = keys[init]
+		initKeys = []*identity.Key{initKey}
+	}
+	alice, err := identity.NewIdentityFull(repo, "Alice", "alice@example.org", "", "", initKeys)
 	if err != nil {
 		return nil, err
 	}
@@ -258,14 +274,14 @@ func Build(dir string, keys Keys, history []string, pos Position, signer string,
 		return nil, err
 	}
 	// the bug under test: create + one more commit, both while no key was ever declared
-	b, _, err := bug.Create(nobody(alice), now(), "signed bug", "message", nil, nil)
+	b, _, err := bug.Create(signingAuthor{alice, initKey}, now(), "signed bug", "message", nil, nil)
 	if err != nil {
 		return nil, err
 	}
 	if err := b.Commit(repo); err != nil {
 		return nil, err
 	}
-	if _, _, err := bug.AddComment(b, nobody(alice), now(), "filler", nil, nil); err != nil {
+	if _, _, err := bug.AddComment(b, signingAuthor{alice, initKey}, now(), "filler", nil, nil); err != nil {
 		return nil, err
 	}
 	if err := b.Commit(repo); err != nil {
@@ -280,6 +296,9 @@ func Build(dir string, keys Keys, history []string, pos Position, signer string,
 	// who signs: decided once the key sets are known
 	var sets [][]string // key set of version j
 	set := []string{}
+	if init != "" {
+		set = []string{init}
+	}
 	sets = append(sets, set)
 	for _, ch := range history {
 		next, ok := applyChange(set, ch)
@@ -329,6 +348,9 @@ func Build(dir string, keys Keys, history []string, pos Position, signer string,
 		}
 		h, err := repo.ResolveRef(ref)
 		out.Tested = h
+		if err == nil && strings.HasPrefix(kind, "tree:") {
+			err = reorderTree(repo, out, ref, strings.TrimPrefix(kind, "tree:"), signKey)
+		}
 		return err
 	}
 	if pos.J == 0 {
@@ -638,6 +660,91 @@ func rawAlter(b *Built, class string, keys Keys) error {
 	}
 	b.Tested = repository.Hash(nh.String())
 	return r.Storer.SetReference(plumbing.NewHashReference(plumbing.ReferenceName("refs/bugs/"+b.Bug.String()), nh))
+}
+
+// TreeOrders are the orders in which the three entries of the tested commit's tree (edit clock,
+// operation pack, format version; canonical git order: edit-clock-N, ops, version-4) are stored:
+// all five non-canonical permutations.
+var TreeOrders = map[string][]string{
+	"ops-first":                {"ops", "edit-clock-", "version-"},
+	"ops-first-version-second": {"ops", "version-", "edit-clock-"},
+	"version-first":            {"version-", "edit-clock-", "ops"},
+	"reverse":                  {"version-", "ops", "edit-clock-"},
+	"ops-last":                 {"edit-clock-", "version-", "ops"},
+}
+
+// reorderTree replaces the tested commit by one over a raw tree object holding the same entries in
+// the given order, with the same parents, signed (or not) after the tree was built, through the
+// calls operationPack.Write makes (StoreSignedCommit / StoreCommit).
+func reorderTree(repo *repository.GoGitRepo, b *Built, ref string, order string, signKey *identity.Key) error {
+	prefixes, ok := TreeOrders[order]
+	if !ok {
+		return fmt.Errorf("unknown tree order %s", order)
+	}
+	r, err := gogit.PlainOpen(b.Dir)
+	if err != nil {
+		return err
+	}
+	c, err := r.CommitObject(plumbing.NewHash(string(b.Tested)))
+	if err != nil {
+		return err
+	}
+	tree, err := c.Tree()
+	if err != nil {
+		return err
+	}
+	if len(tree.Entries) != len(prefixes) {
+		return fmt.Errorf("tested commit with %d tree entries", len(tree.Entries))
+	}
+	var raw bytes.Buffer
+	for _, p := range prefixes {
+		found := false
+		for _, e := range tree.Entries {
+			if strings.HasPrefix(e.Name, p) {
+				fmt.Fprintf(&raw, "%o %s", uint32(e.Mode), e.Name)
+				raw.WriteByte(0)
+				raw.Write(e.Hash[:])
+				found = true
+			}
+		}
+		if !found {
+			return fmt.Errorf("no %s entry in the tested commit's tree", p)
+		}
+	}
+	o := r.Storer.NewEncodedObject()
+	o.SetType(plumbing.TreeObject)
+	w, err := o.Writer()
+	if err != nil {
+		return err
+	}
+	if _, err := w.Write(raw.Bytes()); err != nil {
+		return err
+	}
+	if err := w.Close(); err != nil {
+		return err
+	}
+	th, err := r.Storer.SetEncodedObject(o)
+	if err != nil {
+		return err
+	}
+	if th == c.TreeHash {
+		return fmt.Errorf("tree order %s is the canonical one", order)
+	}
+	var parents []repository.Hash
+	for _, p := range c.ParentHashes {
+		parents = append(parents, repository.Hash(p.String()))
+	}
+	var h repository.Hash
+	if signKey != nil {
+		h, err = repo.StoreSignedCommit(repository.Hash(th.String()), signKey.PGPEntity(), parents...)
+	} else {
+		h, err = repo.StoreCommit(repository.Hash(th.String()), parents...)
+	}
+	if err != nil {
+		return err
+	}
+	b.Tested = h
+	return repo.UpdateRef(ref, h)
 }
 
 // alter rewrites the tested commit after it was signed, keeping the signature header: either its
